@@ -310,6 +310,10 @@ def source_variants(rng, pts):
     v.append(('faint_table', {'prim': 'source', 'leaf': table_on(pts, False, rng, scale=F(2) ** rng.choice([-28, -34, -50, -90]))}))
     if len(pts) >= 3:
         v.append(('table_tapered', {'prim': 'source', 'leaf': table_on(pts, True, rng)}))
+        for end in (0, -1):         # zero at exactly one end: tapering must still add a point beyond the other
+            lf = table_on(pts, False, rng)
+            lf['vals'][end] = '0'
+            v.append(('table_zero_%s_end' % ('blue' if end == 0 else 'red'), {'prim': 'source', 'leaf': lf}))
     w = pts[-1] - pts[0]
     v.append(('box', {'prim': 'source', 'leaf': {'leaf': 'box', 'amp': '2', 'x0': q((pts[0] + pts[-1]) / 2), 'width': q(w),
                                                  'step': q(w / 4)}}))
@@ -425,7 +429,7 @@ def run(rep):
             placed.append(c)
     cases += placed
     rep.rule = ('all pairs of sub-intervals of a 6-point lattice (every interval relation incl. shared end points) x '
-                '{untapered, tapered} bandpass x {table, faint table (values 2^-28 .. 2^-90), tapered table, box with waveset, unbounded constant, redshifted table} source: '
+                '{untapered, tapered} bandpass x {table, faint table (values 2^-28 .. 2^-90), tapered table, tables zero at one end only, box with waveset, unbounded constant, redshifted table} source: '
                 'check_overlap verdicts (some with other thresholds) and Observation construction with force in '
                 '{None, none, taper, extrap, extrapolate, TAPER, Extrap, bogus}, sampled inside, outside and far outside both ranges; '
                 'normalize() on graded and disjoint placements x force (the same verdict must raise DisjointError / PartialOverlap or proceed); plus graded placements (bandpass sticking out of an untapered source range by a sliver or a large part, on either or both sides, x 6 thresholds), random source/bandpass pairs off the lattice and overlap_status on arrays. Non-trivial: a verdict or an admission decision was produced.')
